@@ -71,7 +71,18 @@ def _lin(t):
         if t.args[0] == 0:
             return {}
         raise GaveUp("non-zero rational constant inside an angle")
+    if t.op == "f" and t.args[0] == "mod" and _is_two_pi(t.args[2]):
+        # cos/sin are 2 pi periodic: (x mod 2 pi) and x are the same angle
+        return _lin(t.args[1])
     return {t: Fraction(1)}
+
+
+def _is_two_pi(t):
+    try:
+        d = _lin(t)
+    except GaveUp:
+        return False
+    return len(d) == 1 and d.get(tm.PI) == 2
 
 
 def _fgcd(qs):
